@@ -153,8 +153,16 @@ impl<Dst: Write> TableBuilder<Dst> {
     pub fn add(&mut self, key: &[u8], val: &[u8]) -> Result<()> {
         assert!(self.data_block.is_some());
 
-        if !self.prev_block_last_key.is_empty() {
-            assert!(self.opt.cmp.cmp(&self.prev_block_last_key, key) == Ordering::Less);
+        // The key must be greater than the most recently added one: the last key of the pending
+        // block or, if that block is still empty, the last key of the block written before it.
+        if self.num_entries > 0 {
+            let dblock = self.data_block.as_ref().unwrap();
+            let last = if dblock.entries() > 0 {
+                dblock.last_key()
+            } else {
+                &self.prev_block_last_key
+            };
+            assert!(self.opt.cmp.cmp(last, key) == Ordering::Less);
         }
 
         // Never flush a block without entries (its size estimate alone exceeds tiny block sizes).
